@@ -364,8 +364,8 @@ theorem handle_subdomain_cid (kf : Bool) (env : Env) (cfg : Config) (gwHost ns L
     (hus : gw.useSubdomains = true) (hpp : hasPathPrefix (47 :: ns ++ 47 :: L) gw.paths = true)
     (hd : env.codecs.decode L = some c) (hlen : L.length ≤ 63)
     (hcodec : isPeerIDNamespace ns = true → c.codec = libp2pKey) :
-    handle kf true env cfg rq = .next ((47 :: ns ++ 47 :: L) ++ rq.path) (.subdomain gwHost) := by
-  unfold handle
+    handleHost kf true env cfg rq = .next ((47 :: ns ++ 47 :: L) ++ rq.path) (.subdomain gwHost) := by
+  unfold handleHost
   simp only [heff]
   simp only [hunk, hksd, hus, hpp, hd, Bool.and_self, Bool.not_true, Bool.false_eq_true, ↓reduceIte]
   have hl : toDNSLabel L (env.codecs.enc true c.codec c.mh) = some L := by
@@ -383,13 +383,13 @@ theorem handle_subdomain_name (kf ch : Bool) (env : Env) (cfg : Config) (gwHost 
     (hksd : knownSubdomainDetails cfg (rootID ++ 46 :: (IPNS ++ 46 :: gwHost)) = some (gw, gwHost, IPNS, rootID))
     (hus : gw.useSubdomains = true) (hpp : hasPathPrefix (47 :: IPNS ++ 47 :: rootID) gw.paths = true)
     (hd : env.codecs.decode rootID = none) :
-    handle kf ch env cfg rq =
+    handleHost kf ch env cfg rq =
       .next ((if !contains 46 rootID && contains 45 rootID then
           if env.hasDNSLink (uninlineDNSLink rootID) then ipnsSlash ++ uninlineDNSLink rootID
           else if !env.hasDNSLink rootID then ipnsSlash ++ uninlineDNSLink rootID
           else 47 :: IPNS ++ 47 :: rootID
         else 47 :: IPNS ++ 47 :: rootID) ++ rq.path) (.subdomain gwHost) := by
-  unfold handle
+  unfold handleHost
   simp only [heff]
   simp only [hunk, hksd, hus, hpp, hd, Bool.and_self, Bool.not_true, Bool.false_eq_true, ↓reduceIte]
   simp
@@ -401,5 +401,13 @@ theorem redir_opt_not_next (c : Bool) (x : Redir) (p : Bytes) (k : Ctx) :
       | Redir.to u => some (Out.redirect u)
       | Redir.no => none) else none) ≠ some (Out.next p k) := by
   cases c <;> cases x <;> simp
+
+theorem handle_absent (kf ch : Bool) (env : Env) (cfg : Config) (r : Req) (h : r.uri = .absent) :
+    handle kf ch env cfg r = handleHost kf ch env cfg r := by
+  unfold handle; rw [h]
+
+theorem opt_out_next_eq {o : Option Out} {d x : Out} (h : (match o with | some v => v | none => d) = x) :
+    o = some x ∨ (o = none ∧ d = x) := by
+  cases o <;> simp_all
 
 end C32
